@@ -41,6 +41,7 @@ class Spelling:
     def __init__(self, r=None):
         self.r = r
         self.dims = set()
+        self.force_names = False
 
     def rcase(self, s):
         r = self.r
@@ -75,33 +76,29 @@ class Spelling:
     def tname(self, t):
         if not isinstance(t, type) or t not in TYPE_NAMES:
             return t
-        if self.r is None or self.r.pct() < 35:
-            return t
+        if self.r is None or (self.r.pct() < 35 and not self.force_names):
+            return t if not self.force_names else TYPE_NAMES[t][0]
         self.dims.add("type-name")
         return self.rcase(self.r.choice(TYPE_NAMES[t]))
+
+
+import re as _re
+
+_ESC = _re.compile(r"\\(path)", _re.IGNORECASE)
+_PATH = _re.compile(r"(path)", _re.IGNORECASE)
 
 
 def needs_escape(d):
     """True if ConditionLike.from_spec would not read this literal mapping back as itself."""
     ks = [k for k in d if isinstance(k, str)]
-    if any("\\path" in k for k in ks):
+    if any(_ESC.search(k) for k in ks):
         return True
     return len(d) == 1 and bool(ks) and ks[0].lower().split(".")[0] == "path"
 
 
-def expressible_literal(d):
-    """A literal mapping that needs escaping can only be escaped if the escape code (which
-    is lower-case) applies to every key that has to change."""
-    if not needs_escape(d):
-        return True
-    ks = [k for k in d if isinstance(k, str)]
-    if len(d) == 1 and ks and ks[0].lower().split(".")[0] == "path" and not ks[0].startswith("path"):
-        return False  # 'PATH', 'Path.x' ...: no escaped spelling exists
-    return True
-
-
 def escape_literal(d):
-    return {(k.replace("path", "\\path") if isinstance(k, str) and "path" in k else k): v for k, v in d.items()}
+    """The documented escape: a backslash before 'path' (any letter case) in the keys."""
+    return {(_PATH.sub(r"\\\1", k) if isinstance(k, str) else k): v for k, v in d.items()}
 
 
 def arg_spec(a, sp, depth=0):
@@ -270,7 +267,7 @@ def doc_spec(doc, sp=None):
     if ex or sp.r.coin():
         out["examples"] = ex
     if not out:
-        return None
+        out["description"] = []
     if "description" not in out:
         sp.dims.add("doc-no-description")
     return out
